@@ -68,9 +68,10 @@ Apply(s) == IF ~IsSig(s) THEN s
 SortSig(x) == Sort(x.ps, x.src, x.depth)
 
 (* ---- the pairwise merger; a = the _Merger instance's mutable state *)
-UnbalancedPos(a, e, esrc, other, hasOther, oVaSide, oHasVa) ==
+UnbalancedPos(a, e, esrc, other, hasOther, oVaSide, oHasVa, osrc) ==
   IF a.fail THEN a
-  ELSE IF hasOther THEN [a EXCEPT !.pos = Append(@, Concile(e, other)), !.src = SAdd(@, e.n, <<SGet(esrc, e.n)>>)]
+  ELSE IF hasOther THEN [a EXCEPT !.pos = Append(@, Concile(e, other)),
+                                  !.src = SAdd(@, e.n, IF other.n = e.n THEN <<SGet(esrc, e.n), SGet(osrc, e.n)>> ELSE <<SGet(esrc, e.n)>>)]
   ELSE IF oHasVa THEN [a EXCEPT !.pos = Append(@, e), !.src = SAdd(@, e.n, <<SGet(esrc, e.n)>>), !.vaSrc[oVaSide] = FALSE]
   ELSE IF ~e.d THEN [a EXCEPT !.fail = TRUE]
   ELSE a
@@ -108,10 +109,10 @@ Merge2(l, r) ==
       a0 == P0[m]
       extraL == nl - m   extraR == nr - m
       P1[i \in 0..extraL] == IF i = 0 THEN a0
-           ELSE UnbalancedPos(P1[i-1], l.pos[m + i], l.src, IF i <= Len(r.pok) THEN r.pok[i] ELSE NoP, i <= Len(r.pok), 2, r.va # NoP)
+           ELSE UnbalancedPos(P1[i-1], l.pos[m + i], l.src, IF i <= Len(r.pok) THEN r.pok[i] ELSE NoP, i <= Len(r.pok), 2, r.va # NoP, r.src)
       a1 == P1[extraL]
       P2[i \in 0..extraR] == IF i = 0 THEN a1
-           ELSE UnbalancedPos(P2[i-1], r.pos[m + i], r.src, IF i <= Len(l.pok) THEN l.pok[i] ELSE NoP, i <= Len(l.pok), 1, l.va # NoP)
+           ELSE UnbalancedPos(P2[i-1], r.pos[m + i], r.src, IF i <= Len(l.pok) THEN l.pok[i] ELSE NoP, i <= Len(l.pok), 1, l.va # NoP, l.src)
       a2 == P2[extraR]
       lp == SubSeq(l.pok, Min2(extraR, Len(l.pok)) + 1, Len(l.pok))
       rp == SubSeq(r.pok, Min2(extraL, Len(r.pok)) + 1, Len(r.pok))
@@ -173,7 +174,7 @@ Embed2(o, i, uva, uvk, dep) ==
       groups == <<o.pos, o.pok, m.pos, m.pok, o.kwo, m.kwo>>
       dup == \E a, b \in 1..6 : a < b /\ SeqNames(groups[a]) \cap SeqNames(groups[b]) # {}
       popped == (IF o.va # NoP /\ uva THEN {o.va.n} ELSE {}) \cup (IF o.vk # NoP /\ uvk THEN {o.vk.n} ELSE {})
-      src == SPop(SOver(m.src, o.src), popped)
+      src == SOver(m.src, SPop(o.src, popped))     \* outer's forwarded stars are dropped from outer's own map first
       depth == MergeDepths(o.depth, [f \in DOMAIN m.depth |-> m.depth[f] + dep])
   IN IF dup THEN Incompat
      ELSE [tag |-> "sig", pos |-> ePos, pok |-> ePok, va |-> IF uva THEN m.va ELSE o.va,
